@@ -30,6 +30,7 @@ fn isometries() -> Vec<(Iso, bool)> {
         (Iso::new(rotz(0.7), [0.0, 0.0, 0.15]), true),
         (Iso::trans(0.3, 0.0, 0.0), false),
         (Iso::new(mmul(&rotx(0.4), &mmul(&roty(-0.9), &rotz(1.3))), [0.2, -0.1, 0.3]), false),
+        (Iso::new(rotx(PI), [0.0, 0.4, 0.0]), false),
     ]
 }
 
@@ -96,13 +97,29 @@ pub fn eval(c: &Case) -> (Vec<(String, String)>, String) {
         _ => true,
     });
     let pose = to_na(&want);
-    let mut prev = *q;
-    prev[3] += 0.2;
-    prev[5] = 0.55;
+    let mut prev_near = *q;
+    prev_near[3] += 0.2;
+    prev_near[5] = 0.55;
     let th = fkref::internal_angles(p, q);
-    let regular = th[4].sin().abs() > 1e-3;
+    let lim = st.limits.unwrap();
+    let within = crate::common::arc::arc_member6(&lim.from, &lim.to, q, 1e-6) == crate::common::arc::ArcVerdict::Inside;
+    let regular = th[4].sin().abs() > 1e-3 && within && crate::c02::expected_branches(p, &fkref::fk(p, &st.inner_joints(q))).is_some();
+    let centres = Constraints::new(lim.from, lim.to, lim.weight).centers;
     let mut nsol = 0;
-    for entry in ENTRIES {
+    let variants: Vec<(Entry, Joints, Joints)> = ENTRIES
+        .iter()
+        .flat_map(|e| {
+            let mut v = vec![(*e, prev_near, prev_near)];
+            if e.uses_prev() {
+                // the sentinel stands for the constraint centres; a multi-turn previous inside +-2pi
+                v.push((*e, rs_opw_kinematics::kinematic_traits::CONSTRAINT_CENTERED, centres));
+                let far: Joints = [q[0], q[1], q[2], q[3] - 5.0, q[4], 6.0];
+                v.push((*e, far, far));
+            }
+            v
+        })
+        .collect();
+    for (entry, prev, reference) in variants {
         let five = p.dof == 5 || matches!(entry, Entry::FiveDof | Entry::Continuing5);
         if five && !axial_ok {
             continue;
@@ -147,7 +164,7 @@ pub fn eval(c: &Case) -> (Vec<(String, String)>, String) {
                     }
                 }
                 Entry::Continuing5 => {
-                    if s[5].to_bits() != prev[5].to_bits() {
+                    if s[5].to_bits() != prev[5].to_bits() && !(prev[0].is_nan() && s[5] == 0.0) {
                         fails.push((
                             format!("C09/j6-contract/inverse_continuing_5dof/{shape}"),
                             format!("J6 = {} instead of the previous {}", s[5], prev[5]),
@@ -159,14 +176,14 @@ pub fn eval(c: &Case) -> (Vec<(String, String)>, String) {
             }
             if entry.uses_prev() {
                 let upto = if five { 5 } else { 6 };
-                if (0..upto).any(|i| (s[i] - prev[i]).abs() > PI * (1.0 + 1e-12)) {
+                if (0..upto).any(|i| (s[i] - reference[i]).abs() > PI * (1.0 + 1e-12)) {
                     fails.push((
                         format!("C09/continuation-representative/{}/{shape}", entry.name()),
-                        format!("answer {s:?} is not the representative nearest to previous {prev:?}"),
+                        format!("answer {s:?} is not the representative nearest to previous {prev:?} (reference {reference:?})"),
                     ));
                     break;
                 }
-                let cost: f64 = (0..upto).map(|i| (s[i] - prev[i]).abs()).sum();
+                let cost: f64 = (0..upto).map(|i| (s[i] - reference[i]).abs()).sum();
                 if cost < last_cost - 1e-12 * (1.0 + last_cost.abs()) {
                     fails.push((
                         format!("C09/continuation-order/{}/{shape}", entry.name()),
@@ -228,7 +245,7 @@ pub fn run(ctx: &Ctx) -> Report {
     }
     let stacks: Vec<Vec<Wrap>> = all_stacks(3, &alphabet).into_iter().skip(1).collect();
     let all_r = robot_axis(0, &[6]);
-    let robots: Vec<Parameters> = vec![all_r[1], all_r[9], all_r[22], all_r[all_r.len() - 6], all_r[all_r.len() - 5]];
+    let robots: Vec<Parameters> = if thorough { all_r.iter().step_by(4).cloned().collect() } else { vec![all_r[1], all_r[9], all_r[22], all_r[all_r.len() - 6], all_r[all_r.len() - 5]] };
     let thetas: Vec<[f64; 6]> = if thorough {
         vec![[0.4, -0.9, -1.9, 0.3, 0.6, 0.2], [-2.4, 0.5, 0.8, -1.3, -1.2, 2.5], [3.0, 1.3, 2.6, 2.9, 2.2, -3.0], [0.7, 0.2, 0.1, 1.1, 0.0, -0.4]]
     } else {
@@ -241,7 +258,8 @@ pub fn run(ctx: &Ctx) -> Report {
         par::decode(idx, &sizes, &mut ix);
         let p = &robots[ix[1]];
         let q = user_joints(p, &thetas[ix[2]]);
-        let mut desc = StackDesc::bare(*p).limited(Limits { from: [-3.1; 6], to: [3.1; 6], weight: 0.0 });
+        // limits that accept every angle (each span exceeds a turn) but whose centres are far from zero (J1, J4, J6), so that CONSTRAINT_CENTERED is not the same as zeros
+        let mut desc = StackDesc::bare(*p).limited(Limits { from: [-1.5, -3.2, -3.2, -1.0, -3.2, -5.9], to: [5.0, 3.2, 3.2, 5.5, 3.2, 0.6], weight: 0.0 });
         desc.wraps = stacks[ix[0]].clone();
         let c = Case { stack: desc, q };
         let (fails, sig) = eval(&c);
